@@ -151,6 +151,9 @@ class LOC(dns.rdata.Rdata):
         _check_coordinate_list(longitude, -180, 180)
         self.longitude = tuple(longitude)  # pyright: ignore
         self.altitude = float(altitude)
+        # the wire form stores int(altitude) + 10000000 in an unsigned 32-bit field
+        if not (-10000000.0 <= self.altitude < 4284967296.0):
+            raise ValueError("altitude out of range")
         self.size = float(size)
         self.horizontal_precision = float(hprec)
         self.vertical_precision = float(vprec)
@@ -255,7 +258,7 @@ class LOC(dns.rdata.Rdata):
         t = tok.get_string()
         if t[-1] == "m":
             t = t[0:-1]
-        altitude = float(t) * 100.0  # m -> cm
+        altitude = round(float(t) * 100.0)  # m -> cm (the wire form counts whole cm)
 
         tokens = tok.get_remaining(max_tokens=3)
         if len(tokens) >= 1:
